@@ -503,4 +503,28 @@ theorem C17_client_reachable_acks_in_call (cfg : Cli.Config) (ops : List CliEmit
   obtain ⟨hi, hp⟩ := Safe.C.reach cfg ops hw hk
   exact C17_client_acks_in_call _ s' hi hp now' bytes rs h
 
+/-- **conservation, one call of a session.**  In every state with outbound chunk size ≥ 1 and a known window
+    `w`, for every `handle_input` call whose bytes keep the count below 2^32: the count acknowledged in the call
+    (0 if none is due) plus the bytes outstanding after it equal the bytes outstanding before it plus the
+    bytes received — whatever the bytes are and however the call ends.  Summed over the calls of a history
+    (no other operation touches the counter: `C17_server_calls_leave_counter`): no received byte is
+    acknowledged twice or never. -/
+theorem C17_server_call_conservation (s : Srv.State) (hp : 1 ≤ s.ser.maxCs) (now : Nat) (bytes : Bytes) (w : Nat)
+    (hw : s.window = some w) (hn : bytes.length < 4294967296) (hs : s.since + bytes.length < 4294967296) :
+    ((ackStep s.window s.since bytes.length).2.getD 0) + (Srv.handleInput s now bytes).1.since =
+      s.since + bytes.length := by
+  rw [(C17_server_every_call s hp now bytes).1, hw, C17_step w s.since bytes.length hn hs]
+  by_cases h : s.since + bytes.length ≥ w
+  · simp only [h, if_true, Option.getD_some]; omega
+  · simp only [h, if_false, Option.getD_none]; omega
+
+theorem C17_client_call_conservation (s : Cli.State) (hp : 1 ≤ s.ser.maxCs) (now : Nat) (bytes : Bytes) (w : Nat)
+    (hw : s.window = some w) (hn : bytes.length < 4294967296) (hs : s.since + bytes.length < 4294967296) :
+    ((ackStep s.window s.since bytes.length).2.getD 0) + (Cli.handleInput s now bytes).1.since =
+      s.since + bytes.length := by
+  rw [(C17_client_every_call s hp now bytes).1, hw, C17_step w s.since bytes.length hn hs]
+  by_cases h : s.since + bytes.length ≥ w
+  · simp only [h, if_true, Option.getD_some]; omega
+  · simp only [h, if_false, Option.getD_none]; omega
+
 end Rml.C17
